@@ -160,7 +160,7 @@ theorem setActive_inv {s : St} (hi : Inv p s) (m : Mode) : Inv p (setActive s m)
     obtain ⟨hmem, hid⟩ := find_some hx
     exact ⟨hi.nodup, hi.i1, fun _ => ⟨x, hmem, hid⟩, fun h => by simp at h⟩
 
-theorem deleteMode_inv {s : St} (hi : Inv p s) (id : String) (am : Bool) (ex : Option Mode) :
+theorem deleteMode_inv {s : St} (hi : Inv p s) (id : String) (am : Bool) (ex : DOpts) :
     Inv p (deleteMode s id am ex).1 := by
   unfold deleteMode
   split
@@ -170,16 +170,18 @@ theorem deleteMode_inv {s : St} (hi : Inv p s) (id : String) (am : Bool) (ex : O
     · split <;> exact hi
     · split
       · exact hi
-      · refine ⟨?_, ?_, ?_, hi.blank⟩
-        · exact List.Nodup.sublist (List.Sublist.map _ (List.filter_sublist)) hi.nodup
-        · intro x hx y hy
-          simp only [eraseMode, List.mem_filter] at hx hy
-          exact hi.i1 x hx.1 y hy.1
-        · intro hc
-          obtain ⟨x, hx, hxa⟩ := hi.i3 hc
-          refine ⟨x, ?_, hxa⟩
-          simp only [eraseMode, List.mem_filter, decide_eq_true_eq]
-          exact ⟨hx, fun h => hact (by rw [← h, hxa])⟩
+      · split
+        · exact hi
+        · refine ⟨?_, ?_, ?_, hi.blank⟩
+          · exact List.Nodup.sublist (List.Sublist.map _ (List.filter_sublist)) hi.nodup
+          · intro x hx y hy
+            simp only [eraseMode, List.mem_filter] at hx hy
+            exact hi.i1 x hx.1 y hy.1
+          · intro hc
+            obtain ⟨x, hx, hxa⟩ := hi.i3 hc
+            refine ⟨x, ?_, hxa⟩
+            simp only [eraseMode, List.mem_filter, decide_eq_true_eq]
+            exact ⟨hx, fun h => hact (by rw [← h, hxa])⟩
 
 theorem mergeMode_normal (old m : Mode) (mask : Option Mask) :
     (mergeMode old m mask).normal = if writesNormal mask then m.normal else old.normal := by
@@ -414,12 +416,13 @@ theorem step_inv {s : St} (hi : Inv p s) (op : Op) (ht : op.Tame) : Inv p (step 
     simp only [step]
     split
     · exact hi
-    · have := deleteMode_inv hi id am none
+    · have := deleteMode_inv hi id am {}
       split
       · rename_i h; rw [h] at this; exact this
       · exact this
   | sChangeActive id now => simp only [step]; split; exact hi; exact changeActive_inv hi id now
   | sClear now => exact changeToNormal_inv hi now
+  | sCreateNil => exact hi
 
 /-- What the configuration must satisfy (the code does not check it): the initial modes have distinct
 ids and at most one of them is normal. -/
